@@ -568,7 +568,13 @@ def run(ctx):
                      'definition (C08 R08e)', 1)
     from . import c08 as _c08
     from .. import core as _core
-    _c08.run(_core.Proxy(ctx, 'R03m', ('R08e',)))
+    _core.run_proxied(ctx, _c08, 'R03m', ('R08e',))
+
+    # ---- R03n (shared with C09 R09f)
+    ctx.rule('R03n', 'the default text-replacement database is built anew for every caller: rendering by the '
+                     'documented rules does not depend on what another caller added to "its" default database', 2)
+    from . import c09 as _c09
+    _c09.default_db_fresh(ctx, 'R03n', repo)
 
     return 'other', (
         'Decides the policy tables against the documented semantics and the shape of the functions '
